@@ -444,18 +444,19 @@ CallFx(S, s, req, proc, o, tag, k, callee, inv) ==
                                 !.w = IF k[2] = "exact" THEN <<>> ELSE proc,
                                 !.d = ident \cup rprog \cup tmo \cup more, !.p = tag, !.t = S.now]
           S1    == [S EXCEPT !.calls = (c :> [callee |-> callee, inv |-> inv, reg |-> r.id,
-                                               canceled |-> FALSE, deadline |-> dl, inprog |-> o.prog]) @@ @,
+                                               canceled |-> FALSE, deadline |-> dl, inprog |-> o.prog, proc |-> proc]) @@ @,
                              !.used.inv[callee] = @ \cup {inv},
                              !.regs[k].last = IF r.policy = "roundrobin" /\ Len(r.callees) > 1 THEN callee ELSE @]
       IN Emit(S1, callee, im)
 
 \* a further chunk of a call in progress: one INVOCATION to the same callee under the same
-\* invocation id (k = the registration the procedure matches now)
+\* invocation id, under the registration the call was routed by - whatever has happened to
+\* that registration meanwhile, and whatever procedure the chunk names
 InProgress(S, c) == c \in DOMAIN S.calls /\ S.calls[c].inprog /\ ~S.calls[c].canceled
-ChunkFx(S, s, req, proc, o, tag, k) ==
+ChunkFx(S, s, req, o, tag) ==
   LET c == <<s, req>> cl == S.calls[c] IN
   Emit([S EXCEPT !.calls[c].inprog = o.prog], cl.callee,
-       [Base EXCEPT !.k = "INVOCATION", !.req = cl.inv, !.a = S.regs[k].id,
+       [Base EXCEPT !.k = "INVOCATION", !.req = cl.inv, !.a = cl.reg,
                     !.d = IF o.prog THEN {<<"progress", "true">>} ELSE {}, !.p = tag, !.t = S.now])
 
 CallPre(S, s, req, proc, k, callee, inv) ==
